@@ -23,6 +23,8 @@ type Case struct {
 	Fields []Field `json:"fields"`
 	Toks   []Tok   `json:"toks"`
 	Raw    *string `json:"raw,omitempty"` // docs group: this literal document instead of the rendered tokens
+	Hist   *HistScript `json:"hist,omitempty"` // history-independence cases (hist.go): how to re-execute the history
+	Alt    []Field     `json:"alt,omitempty"`  // split types (hist.go): the specs under the OTHER group of tag keys; Fields = those the entry reads
 	// filled in for replays / reports only
 	Type     string `json:"type,omitempty"`
 	Input    string `json:"input,omitempty"`
@@ -178,6 +180,20 @@ func execute(c *Case, typ reflect.Type) (ob observation) {
 	return
 }
 
+func caseType(c *Case, sibling bool) reflect.Type {
+	if c.Alt != nil {
+		return buildSplitType(c.Fields, c.Alt, c.Entry, sibling)
+	}
+	return buildTypeX(c.Fields, sibling)
+}
+
+func describeCase(c *Case) string {
+	if c.Alt != nil {
+		return describeSplitType(c.Fields, c.Alt, c.Entry)
+	}
+	return describeType(c.Fields)
+}
+
 // finding: one disagreement between the observation and the oracle.
 type finding struct {
 	Kind  string // panic | <reason kind>-accepted | valid-rejected | default-not-filled | absent-not-zero | wrong-value
@@ -197,9 +213,13 @@ const (
 func check(c *Case) (fd *finding, oc int) {
 	typ := c.typ
 	if typ == nil {
-		typ = buildType(c.Fields)
+		typ = caseType(c, false)
 	}
-	ob := execute(c, typ)
+	return judge(c, execute(c, typ))
+}
+
+// judge compares one observation with the oracle.
+func judge(c *Case, ob observation) (fd *finding, oc int) {
 	if ob.panicked {
 		return &finding{"panic", -1, ob.err}, ocRejectedAllowed
 	}
@@ -235,7 +255,7 @@ func check(c *Case) (fd *finding, oc int) {
 }
 
 func (c *Case) fill(fd *finding) {
-	c.Type = describeType(c.Fields)
+	c.Type = describeCase(c)
 	c.Input = inputText(c)
 	rs := mustReject(c.Entry, c.Fields, c.Toks)
 	switch {
